@@ -2,16 +2,17 @@
 # usage: tools/eval_seed.sh <outdir e.g. /tmp/seed-out/C07> <k> <name> <check-ids...>
 # 1. confirms the seeded change in a scratch worktree (outside /repo and /verif): applies, builds,
 #    the repository's own tests pass, the demonstration fails with it and passes without it;
-# 2. applies it to /repo, runs the given checks (quick), undoes it;
-# 3. stores it under /verif/seeded/<name>/ with meta.json.
+# 2. runs the given checks (quick) against that scratch worktree (VERIF_REPO), so /repo stays untouched;
+# 3. stores the change under /verif/seeded/<name>/ with meta.json, removes the scratch worktree.
 set -u
 out="$1"; k="$2"; name="$3"; shift 3
 export GOFLAGS=-mod=mod GOPROXY=off GOSUMDB=off GOTOOLCHAIN=local
 patch="$out/patch$k.diff"
 [ -f "$patch" ] || { echo "no $patch"; exit 2; }
-wt=/tmp/evalwt-$$
+wt=/tmp/evalwt-$name
+rm -rf "$wt" "$wt-work" "$wt-out"; git -C /repo worktree prune
 git -C /repo worktree add -q --detach "$wt" HEAD || exit 2
-cleanup() { git -C /repo worktree remove --force "$wt" 2>/dev/null; rm -rf "$wt"; }
+cleanup() { git -C /repo worktree remove --force "$wt" 2>/dev/null; rm -rf "$wt" "$wt-work" "$wt-out"; }
 trap cleanup EXIT
 demo=""
 if [ -f "$out/demo${k}_test.go" ]; then demo="$out/demo${k}_test.go"; fi
@@ -19,14 +20,13 @@ cd "$wt"
 run_demo() {
   if [ -n "$demo" ]; then
     cp "$demo" "$wt/zz_seed_demo_test.go"
-    # run only the tests defined in the demo file
     names=$(grep -oE '^func (Test[A-Za-z0-9_]+)' "$demo" | awk '{print $2}' | paste -sd'|')
-    timeout 300 go test -count=1 -run "^($names)\$" . >/tmp/evalseed_demo.log 2>&1; rc=$?
+    timeout 600 go test -vet=off -count=1 -run "^($names)\$" . >"$wt-demo.log" 2>&1; rc=$?
     rm -f "$wt/zz_seed_demo_test.go"
     return $rc
   elif [ -d "$out/demo$k" ]; then
     mkdir -p "$wt/zz_seed_demo" && cp "$out/demo$k"/*.go "$wt/zz_seed_demo/"
-    timeout 300 go run ./zz_seed_demo >/tmp/evalseed_demo.log 2>&1; rc=$?
+    timeout 600 go run ./zz_seed_demo >"$wt-demo.log" 2>&1; rc=$?
     rm -rf "$wt/zz_seed_demo"
     return $rc
   fi
@@ -34,23 +34,20 @@ run_demo() {
 }
 run_demo; base=$?
 git apply "$patch" || { echo "RESULT $name: patch does not apply"; exit 1; }
-if go build ./... >/tmp/evalseed_build.log 2>&1; then builds=yes; else builds=no; fi
-if timeout 900 go test -vet=off -count=1 ./... >/tmp/evalseed_tests.log 2>&1; then tests=pass; else tests=FAIL; fi
+if go build ./... >"$wt-build.log" 2>&1; then builds=yes; else builds=no; fi
+if timeout 900 go test -vet=off -count=1 ./... >"$wt-tests.log" 2>&1; then tests=pass; else tests=FAIL; fi
 run_demo; mut=$?
+rm -f "$wt-demo.log" "$wt-build.log" "$wt-tests.log"
 echo "CONFIRM $name: builds=$builds repo-tests=$tests demo-without=$base demo-with=$mut"
 ok=no
 if [ "$builds" = yes ] && [ "$tests" = pass ] && [ "$base" = 0 ] && [ "$mut" != 0 ] && [ "$mut" != 99 ]; then ok=yes; fi
 cd /verif
 caught=""; missed=""
 if [ "$ok" = yes ]; then
-  if [ -n "$(git -C /repo status --porcelain)" ]; then echo "/repo not clean"; exit 2; fi
-  git -C /repo apply "$patch"
   for id in "$@"; do
-    res=$(VERIF_HANG_S=${VERIF_HANG_S:-25} timeout 1500 ./run.sh "$id" quick 2>&1 | grep -a -E "^(VIOLATION|INFRA|UNSTABLE)" | head -1)
+    res=$(VERIF_REPO="$wt" VERIF_WORK="$wt-work" VERIF_OUT="$wt-out" VERIF_HANG_S=${VERIF_HANG_S:-25} VERIF_WORKERS=${VERIF_WORKERS:-8} timeout 1500 ./run.sh "$id" quick 2>&1 | grep -a -E "^(VIOLATION|INFRA|UNSTABLE)" | head -1)
     if echo "$res" | grep -q "^VIOLATION"; then caught="$caught $id"; else missed="$missed $id"; [ -n "$res" ] && echo "   $id: $res"; fi
   done
-  git -C /repo checkout -- . ; git -C /repo clean -fdq
-  rm -f /verif/replays/*.json
 fi
 echo "RESULT $name: valid=$ok caught_by=[$caught ] not_caught_by=[$missed ]"
 mkdir -p "/verif/seeded/$name"
@@ -59,11 +56,17 @@ cp "$patch" "/verif/seeded/$name/patch.diff"
 [ -d "$out/demo$k" ] && cp -r "$out/demo$k" "/verif/seeded/$name/demo"
 [ -f "$out/notes$k.md" ] && cp "$out/notes$k.md" "/verif/seeded/$name/notes.md"
 python3 - "$name" "$ok" "$builds" "$tests" "$base" "$mut" "$caught" "$missed" <<'PY'
-import json,sys
+import json,sys,os
 name,ok,builds,tests,base,mut,caught,missed=sys.argv[1:9]
+p="/verif/seeded/%s/meta.json"%name
+old=json.load(open(p)) if os.path.exists(p) else {}
+c=set(old.get("caught_by",[]))|set(caught.split()); m=(set(old.get("not_caught_by",[]))|set(missed.split()))-set(caught.split())
+# a later run supersedes an earlier verdict for the same check
+for x in missed.split(): c.discard(x); m.add(x)
+for x in caught.split(): m.discard(x); c.add(x)
 meta={"name":name,"breaks_property":name.split('-')[0],"valid":ok=="yes","builds":builds=="yes","repo_tests":tests,
  "demo_exit_without_change":int(base),"demo_exit_with_change":int(mut),
- "checks_run_quick":(caught+" "+missed).split(),"caught_by":caught.split(),"not_caught_by":missed.split(),
- "needs_to_manifest":"see notes.md","how_confirmed":"tools/eval_seed.sh: scratch worktree outside /repo and /verif; go build; go test ./... (repository suite, unedited); demo test run with and without the patch; then patch applied to /repo, ./run.sh <id> quick for each listed check, git checkout to undo"}
-json.dump(meta,open("/verif/seeded/%s/meta.json"%name,"w"),indent=1)
+ "caught_by":sorted(c),"not_caught_by":sorted(m),
+ "needs_to_manifest":"see notes.md","how_confirmed":"tools/eval_seed.sh: scratch git worktree of /repo outside /repo and /verif; git apply; go build ./...; go test ./... (repository suite, unedited) passes; the demonstration test is run without the change (must pass) and with it (must fail); then ./run.sh <id> quick for each listed check with VERIF_REPO pointing at the scratch worktree; worktree removed afterwards"}
+json.dump(meta,open(p,"w"),indent=1)
 PY
